@@ -8,12 +8,18 @@ def run(chk):
     chk.rule = ("(1) mass-basis points with sin(beta-alpha) = +-1, running off, mh = m_hSM = m for two random m in [10,190] GeV: a1L and fermionic a2L "
                 "must not depend on m, relative to max(|a|, size of the light-Higgs term measured on the same model); (2) gauge-basis families with "
                 "|lambda_i| <= 2, tan beta 0.3..50, all six types, running off, m12^2 = M^2 sb cb, m_hSM = the model's own mh: "
-                "K = |a| M^2/(1+ln^2(M/MZ)) on 5 points in [1,3.16] TeV and 5 in [10,31.6] TeV, R = max_high K/max_low K bounded per component. "
+                "K = |a| M^2/(1+ln^2(M/MZ)) on 5 points in [1,3.16] TeV and 5 in [10,31.6] TeV, R = max_high K/max_low K bounded per component; "
+                "(3) the same on exactly aligned families (gauge basis: lambda_1 = lambda_2 = lambda_345, lambda_6,7 = 0; mass basis: sin(beta-alpha) = +-1, "
+                "mX^2 = M^2 + c_X v^2, lambda_6,7 free) with tighter ratio limits and, for the bosonic part, a bound on K itself in the high band. "
                 "cell = clause x Yukawa type; a family / pair is one evaluation; distinct_nontrivial = non-empty cells")
     chk.assumptions = ["the literal per-step criterion |a(M sqrt10)| <= 0.45 |a(M)| is falsified by correct code at zero crossings: reported as counts only (DESIGN C10)",
-                       "band-ratio limits 10 / 70 / 2000 (1L / fermionic / bosonic) = >= 10x the worst value observed on the unchanged tree"]
+                       "band-ratio limits 10 / 70 / 2000 (1L / fermionic / bosonic) = >= 10x the worst value observed on the unchanged tree; exactly aligned families: 3 / 6 / 2000 "
+                       "and K_high(bosonic) <= 1e-6 (gauge construction) / 2e-3 GeV^2 (mass construction), 10x the saturating maxima observed over 5e5 families each",
+                       "families that touch a known singular configuration of the bosonic part (C11 findings, within 3e-3 MW) are not judged for the bosonic part (counted)"]
     n = simple.run(chk, "c10_thdm_limits", 60000, 2000000, HARNESSES["c10_thdm_limits"])
     chk.min_conclusive = n // 4
-    chk.min_cells = 40
+    chk.min_cells = 100
     chk.required_cells = ["SM-limit:1L-exact-cancellation(helper-level)|type1", "SM-limit:2LF-exact-cancellation(helper-level)|type6", "SM-limit:2LF-independent-of-common-higgs-mass|type2", "decoupling:1L:band-maxima-ratio|type5",
-                          "decoupling:2LF:band-maxima-ratio|type2", "decoupling:2LB:band-maxima-ratio|type3"]
+                          "decoupling:2LF:band-maxima-ratio|type2", "decoupling:2LB:band-maxima-ratio|type3",
+                          "aligned-decoupling(gauge):2LB:K-high-band|type2", "aligned-decoupling(mass):2LB:K-high-band|type5|sba=-1", "aligned-decoupling(gauge):1L:band-maxima-ratio|type6",
+                          "aligned-decoupling(mass):2LF:band-maxima-ratio|type1|sba=+1"]
